@@ -12,7 +12,7 @@ variable {F : Type}
 def eraseAll {α : Type} (N : List String) (l : List (String × α)) : List (String × α) :=
   N.foldl (fun d n => derase n d) l
 
-theorem derase_eq_filter {α : Type} (k : String) (l : List (String × α)) :
+theorem Writes.derase_eq_filter {α : Type} (k : String) (l : List (String × α)) :
     derase k l = l.filter (fun p => !(p.1 == k)) := by
   induction l with
   | nil => rfl
@@ -37,13 +37,13 @@ theorem eraseAll_eq_filter {α : Type} (N : List String) (l : List (String × α
     have : (keepP ([] : List String) : String × α → Bool) = fun _ => true := by funext p; simp [keepP]
     rw [this]; exact (List.filter_eq_self.2 (fun _ _ => rfl)).symm
   | cons n r ih =>
-    rw [List.foldl_cons, ih, derase_eq_filter, List.filter_filter]
+    rw [List.foldl_cons, ih, Writes.derase_eq_filter, List.filter_filter]
     apply List.filter_congr
     intro p _
     simp only [keepP, List.contains_cons]
     cases (p.1 == n) <;> simp
 
-theorem dlookup_eraseAll {α : Type} (names : List String) (k : String) :
+theorem Writes.dlookup_eraseAll {α : Type} (names : List String) (k : String) :
     ∀ l : List (String × α),
       dlookup k (names.foldl (fun d n => derase n d) l) = if k ∈ names then none else dlookup k l := by
   induction names with
@@ -58,18 +58,18 @@ theorem dlookup_eraseAll {α : Type} (names : List String) (k : String) :
       · have : ¬ k = n := fun e => h2 e.symm
         simp [h1, h2, this]
 
-theorem dlookup_eraseAll' {α : Type} (N : List String) (k : String) (l : List (String × α)) :
+theorem Writes.dlookup_eraseAll' {α : Type} (N : List String) (k : String) (l : List (String × α)) :
     dlookup k (eraseAll N l) = if k ∈ N then none else dlookup k l :=
-  dlookup_eraseAll N k l
+  Writes.dlookup_eraseAll N k l
 
-theorem dlookup_eraseAll_of_not_mem {α : Type} {N : List String} {k : String} (hk : k ∉ N)
+theorem Writes.dlookup_eraseAll_of_not_mem {α : Type} {N : List String} {k : String} (hk : k ∉ N)
     (l : List (String × α)) : dlookup k (eraseAll N l) = dlookup k l := by
-  simp [dlookup_eraseAll', hk]
+  simp [Writes.dlookup_eraseAll', hk]
 
-theorem dset_nil {α : Type} (k : String) (v : α) : dset k v ([] : List (String × α)) = [(k, v)] := rfl
-theorem dset_cons_eq {α : Type} (k : String) (v w : α) (r : List (String × α)) :
+theorem Writes.dset_nil {α : Type} (k : String) (v : α) : dset k v ([] : List (String × α)) = [(k, v)] := rfl
+theorem Writes.dset_cons_eq {α : Type} (k : String) (v w : α) (r : List (String × α)) :
     dset k v ((k, w) :: r) = (k, v) :: r := by simp [dset]
-theorem dset_cons_ne {α : Type} {k k' : String} (h : k' ≠ k) (v w : α) (r : List (String × α)) :
+theorem Writes.dset_cons_ne {α : Type} {k k' : String} (h : k' ≠ k) (v w : α) (r : List (String × α)) :
     dset k v ((k', w) :: r) = (k', w) :: dset k v r := by simp [dset, h]
 
 /-- writing under a key outside `N` commutes with erasing `N` -/
@@ -78,18 +78,18 @@ theorem eraseAll_dset {α : Type} {N : List String} {n : String} (hn : n ∉ N) 
   rw [eraseAll_eq_filter, eraseAll_eq_filter]
   have hkn : ∀ w : α, keepP N (n, w) = true := fun w => (keepP_iff N n w).2 hn
   induction l with
-  | nil => rw [dset_nil, List.filter_cons, hkn]; rfl
+  | nil => rw [Writes.dset_nil, List.filter_cons, hkn]; rfl
   | cons p r ih =>
     obtain ⟨k', v'⟩ := p
     by_cases h : k' = n
     · subst h
-      rw [dset_cons_eq, List.filter_cons, List.filter_cons, hkn, hkn]
+      rw [Writes.dset_cons_eq, List.filter_cons, List.filter_cons, hkn, hkn]
       simp only [if_true]
-      rw [dset_cons_eq]
-    · rw [dset_cons_ne h, List.filter_cons, List.filter_cons]
+      rw [Writes.dset_cons_eq]
+    · rw [Writes.dset_cons_ne h, List.filter_cons, List.filter_cons]
       by_cases hk : keepP N (k', v') = true
       · simp only [hk, if_true]
-        rw [dset_cons_ne h, ih]
+        rw [Writes.dset_cons_ne h, ih]
       · simp only [hk]; exact ih
 
 /-- writing under a key inside `N` is invisible after erasing `N` -/
@@ -98,14 +98,14 @@ theorem eraseAll_dset_mem {α : Type} {N : List String} {n : String} (hn : n ∈
   rw [eraseAll_eq_filter, eraseAll_eq_filter]
   have hkn : ∀ w : α, keepP N (n, w) = false := fun w => by simp [keepP, hn]
   induction l with
-  | nil => rw [dset_nil, List.filter_cons, hkn]; rfl
+  | nil => rw [Writes.dset_nil, List.filter_cons, hkn]; rfl
   | cons p r ih =>
     obtain ⟨k', v'⟩ := p
     by_cases h : k' = n
     · subst h
-      rw [dset_cons_eq, List.filter_cons, List.filter_cons, hkn, hkn]
+      rw [Writes.dset_cons_eq, List.filter_cons, List.filter_cons, hkn, hkn]
       rfl
-    · rw [dset_cons_ne h, List.filter_cons, List.filter_cons, ih]
+    · rw [Writes.dset_cons_ne h, List.filter_cons, List.filter_cons, ih]
 
 theorem eraseAll_eraseAll_of_subset {α : Type} {N N' : List String} (hsub : ∀ k, k ∈ N → k ∈ N')
     (l : List (String × α)) : eraseAll N' (eraseAll N l) = eraseAll N' l := by
@@ -139,7 +139,7 @@ theorem strip_subs (N : List String) (c : Candle F) : (strip N c).subs = eraseAl
 
 theorem strip_agree (N : List String) (c : Candle F) : CandleAgreeOff N c (strip N c) :=
   ⟨rfl, rfl, rfl, rfl, rfl, rfl, rfl, rfl,
-   fun _ hk => (dlookup_eraseAll_of_not_mem hk _).symm, fun _ hk => (dlookup_eraseAll_of_not_mem hk _).symm⟩
+   fun _ hk => (Writes.dlookup_eraseAll_of_not_mem hk _).symm, fun _ hk => (Writes.dlookup_eraseAll_of_not_mem hk _).symm⟩
 
 /-- the two lists become equal once the entries under `N` are dropped -/
 def StripEq (N : List String) (cs cs' : List (Candle F)) : Prop := cs.map (strip N) = cs'.map (strip N)
